@@ -226,7 +226,7 @@ Proof.
   intros Hma. unfold ctl_read. unfold bindM at 1. unfold assert_open. cbn [fst].
   destruct (c_opened c); [|exists (Err CE_NOT_OPENED), (c, w); split; [reflexivity|]; split; discriminate].
   unfold bindM at 1. unfold verify_range.
-  destruct (2 ^ 64 <? a + n); [exists (Err CE_INVALID_DATA), (c, w); split; [reflexivity|]; split; discriminate|].
+  destruct ((a <? 0) || (2 ^ 64 <? a + n)); [exists (Err CE_INVALID_DATA), (c, w); split; [reflexivity|]; split; discriminate|].
   unfold ret at 1. unfold bindM at 1. unfold get_ctl. cbn [fst].
   unfold bindM at 1. unfold lift at 1. unfold read_chunks_init.
   destruct (c_max_ack c <=? ACK_HEADER_LENGTH) eqn:E;
@@ -322,8 +322,8 @@ Proof.
   intros Ha. unfold ctl_write. unfold bindM at 1. unfold assert_open. cbn [fst].
   destruct (c_opened c); [|exists (Err CE_NOT_OPENED), (c, w); split; [reflexivity|discriminate]].
   unfold bindM at 1. unfold verify_range.
-  destruct (2 ^ 64 <? a + zlen data) eqn:E; [exists (Err CE_INVALID_DATA), (c, w); split; [reflexivity|discriminate]|].
-  apply Z.ltb_ge in E. unfold ret at 1. unfold bindM at 1. unfold get_ctl. cbn [fst].
+  destruct ((a <? 0) || (2 ^ 64 <? a + zlen data)) eqn:E; [exists (Err CE_INVALID_DATA), (c, w); split; [reflexivity|discriminate]|].
+  apply orb_false_iff in E as [_ E]. apply Z.ltb_ge in E. unfold ret at 1. unfold bindM at 1. unfold get_ctl. cbn [fst].
   apply write_blocks_total; lia.
 Qed.
 
